@@ -106,7 +106,11 @@ class _FakeTLSStream:
         except WireError as e:
             st.world.probes["l2_tls_failure_seen_by_real_backend"] += 1
             if "handshake" in str(e) or "injected" in str(e):
-                raise _ssl.SSLError(1, "[SSL] simulated handshake failure") from None
+                x = st.world.rng("tls-error-kind").random()
+                if x < 0.6:
+                    raise _ssl.SSLError(1, "[SSL] simulated handshake failure") from None
+                if x < 0.8:
+                    raise _real_anyio.EndOfStream from None
             raise _real_anyio.BrokenResourceError from None
         return FakeAnyioStream(st.world, st.wire)
 
@@ -282,9 +286,21 @@ class FakeSocket:
     def fileno(self):
         return 1000 + self.wire.id if self.wire is not None else -1
 
+    def _need(self):
+        if self.wire is None:
+            raise OSError(9, "Bad file descriptor")     # detached or never connected
+
     def settimeout(self, t):
         self.timeout = t
         self.world.log("settimeout", self.wire.id if self.wire else -1, t)
+
+    def gettimeout(self):
+        return self.timeout
+
+    def detach(self):
+        """As socket.detach(): this object no longer owns the descriptor."""
+        w, self.wire = self.wire, None
+        return w
 
     def setsockopt(self, *a):
         self.opts.append(a)
@@ -302,12 +318,14 @@ class FakeSocket:
             raise _err(e) from None
 
     def recv(self, n):
+        self._need()
         try:
             return sdrive(self.world, self.wire, self.wire.recv(n, self.timeout))
         except WireError as e:
             raise _err(e) from None
 
     def send(self, data):
+        self._need()
         data = bytes(data)
         # short writes are legal for send()
         r = self.world.rng(f"shortwrite/{self.wire.id}")
@@ -331,13 +349,22 @@ class FakeSocket:
             sdrive(self.world, self.wire, self.wire.close())
 
 
-def _err(e: WireError):
+def _err(e: WireError, world=None):
     if e.kind.endswith("timeout"):
         return _real_socket.timeout("timed out")
     if e.kind in ("connect_error",):
         return ConnectionRefusedError(111, str(e))
     if e.kind == "tls_error":
-        return _ssl.SSLError(1, "[SSL] simulated handshake failure")
+        # a handshake fails with an SSLError (bad record, certificate, EOF) or with a
+        # plain OSError when the peer resets the connection in the middle of it
+        x = world.rng("tls-error-kind").random() if world is not None else 0.0
+        if x < 0.5:
+            return _ssl.SSLError(1, "[SSL] simulated handshake failure")
+        if x < 0.65:
+            return _ssl.SSLEOFError(8, "EOF occurred in violation of protocol")
+        if x < 0.85:
+            return ConnectionResetError(104, "Connection reset by peer")
+        return BrokenPipeError(32, "Broken pipe")
     if e.kind == "read_error":
         return ConnectionResetError(104, str(e))
     if e.kind == "write_error":
@@ -350,21 +377,35 @@ class FakeSSLSocket(_ssl.SSLSocket):
     checks, so that get_extra_info('ssl_object') and the TLS-in-TLS branch see a TLS
     socket."""
 
-    def __new__(cls, inner):
+    def __new__(cls, inner, hostname=None, alpn=None):
         return _ssl.SSLSocket.__new__(cls)
 
-    def __init__(self, inner):  # noqa: D401  (deliberately no super().__init__)
+    def __init__(self, inner, hostname=None, alpn=None):  # noqa: D401  (no super().__init__)
         object.__setattr__(self, "_inner", inner)
         object.__setattr__(self, "_sslobj", SSLObject(inner.wire))
+        object.__setattr__(self, "_hs", (hostname, alpn))
 
     def __getattribute__(self, name):
-        if name in ("_inner", "_sslobj", "__class__", "__dict__"):
+        if name in ("_inner", "_sslobj", "_hs", "__class__", "__dict__", "do_handshake"):
             return object.__getattribute__(self, name)
         inner = object.__getattribute__(self, "_inner")
-        if name in ("settimeout", "recv", "send", "sendall", "close", "fileno", "getsockname",
-                    "getpeername", "setsockopt", "wire", "world", "timeout"):
+        if name in ("settimeout", "gettimeout", "recv", "send", "sendall", "close", "fileno",
+                    "getsockname", "getpeername", "setsockopt", "wire", "world", "timeout",
+                    "detach"):
             return getattr(inner, name)
         return object.__getattribute__(self, name)
+
+    def do_handshake(self, block=False):
+        """Explicit handshake (wrap_socket(do_handshake_on_connect=False)): unlike the
+        implicit one, a failure does NOT close the socket."""
+        inner = object.__getattribute__(self, "_inner")
+        hostname, alpn = object.__getattribute__(self, "_hs")
+        inner._need()
+        try:
+            sdrive(inner.world, inner.wire, inner.wire.start_tls(hostname, alpn, inner.timeout))
+        except WireError as e:
+            inner.world.probes["l2_tls_failure_seen_by_real_backend"] += 1
+            raise _err(e, inner.world) from None
 
     def __del__(self):
         pass
@@ -380,15 +421,22 @@ class L2SSLContext:
     def set_alpn_protocols(self, protos):
         self.alpn = list(protos)
 
-    def wrap_socket(self, sock, server_hostname=None, **kw):
+    def wrap_socket(self, sock, server_hostname=None, do_handshake_on_connect=True, **kw):
+        """As ssl.SSLContext.wrap_socket: the descriptor moves from `sock` (which is
+        detached: closing it afterwards closes nothing) into the new SSLSocket; the
+        implicit handshake closes the new socket itself when it fails."""
         if isinstance(sock, FakeSSLSocket):
             raise HarnessError("TLS-in-TLS is not modelled at L2 (sync)")
-        try:
-            sdrive(sock.world, sock.wire, sock.wire.start_tls(server_hostname, self.alpn, sock.timeout))
-        except WireError as e:
-            sock.world.probes["l2_tls_failure_seen_by_real_backend"] += 1
-            raise _err(e) from None
-        return FakeSSLSocket(sock)
+        inner = FakeSocket(sock.world, sock.detach())
+        inner.timeout = sock.timeout
+        new = FakeSSLSocket(inner, server_hostname, self.alpn)
+        if do_handshake_on_connect:
+            try:
+                new.do_handshake()
+            except BaseException:
+                inner.close()
+                raise
+        return new
 
 
 class SocketShim:
